@@ -590,7 +590,7 @@ func (r *JobRun) runOp(op *Op, i int) *Violation {
 	r.installFaults(id, spec)
 	var started, ended bool
 	var err error
-	if r.Sc.Knob("viaTrigger", 0) == 1 {
+	if r.Sc.Knob("viaTrigger", 0) == 1 && spec["manual"] != true {
 		// the job's own cron trigger starts the run (scenarios with this knob have one unpaused job, "@every 10m")
 		started, ended = true, r.H.RunJobByTrigger(2*time.Hour)
 		r.Stats["runs_by_trigger"]++
